@@ -18,6 +18,10 @@ type LedgerFunc struct {
 	Obligations int      `json:"obligations"`
 	Discharged  int      `json:"discharged"`
 	Undecided   []string `json:"undecided,omitempty"`
+	// obligations of the same unit that belong to other properties and did not discharge on the unchanged tree:
+	// this property's obligations are checked under the assumption of every earlier obligation of the unit
+	// (assert-then-assume), so a NEW failure among the others invalidates this property's claim for the unit
+	ForeignUndecided []string `json:"foreign_undecided,omitempty"`
 }
 
 type Ledger struct {
@@ -199,11 +203,22 @@ func cmdCheck(args []string) {
 				tolerated[n] = true
 			}
 		}
+		foreignTolerated := map[string]bool{}
+		if old := ledger.Functions[u.Key]; old != nil {
+			for _, n := range old.ForeignUndecided {
+				foreignTolerated[n] = true
+			}
+		}
 		earlierFailure := false
 		for _, o := range u.Script.obls {
 			if len(o.Props) > 0 && !hasProp(o.Props, *prop) {
-				if !o.good() {
+				if !o.good() && !o.Cover {
 					earlierFailure = true
+					lf.ForeignUndecided = append(lf.ForeignUndecided, o.Name)
+					if !foreignTolerated[o.Name] && !knownAnywhere(known, o.Name) {
+						nObl++
+						failures = append(failures, failure{o, u, "an obligation this property's proof of the unit relies on (assert-then-assume) does not discharge: " + o.Result})
+					}
 				}
 				continue
 			}
@@ -409,4 +424,14 @@ func tail(s string, n int) string {
 		return "..." + s[len(s)-n:]
 	}
 	return s
+}
+
+// knownAnywhere: the obligation is a recorded known finding of some property.
+func knownAnywhere(known []knownFinding, name string) bool {
+	for _, kf := range known {
+		if kf.Obligation == name {
+			return true
+		}
+	}
+	return false
 }
